@@ -19,14 +19,22 @@ def run(ctx):
     ctx.step(_p13d, ctx)
 
 
+def _param_proj(g, e, pi):
+    """e is parameter pi of the root, or a field / deref of it (a newtype or struct passed instead of the bare value)"""
+    e = g.strip(e)
+    while e[0] in ('fld', 'deref', 'dc', 'cast'):
+        e = g.strip(e[2] if e[0] == 'cast' else e[1])
+    return e == ('param', g.root_inst, pi)
+
+
 def _p12a(ctx):
     fn = ctx.fn1(r'^memory::MemoryManagerInner::try_freeing$')
     g = ctx.graph(fn)
     x = g.x
-    dels = x.inlined(r'memory::ToFree::delete$')
+    dels = sorted({n_ for (n_, _i) in g.inlined_insts(r'memory::ToFree::delete$')})
     ctx.floor('P12a', len(dels), 1, 'ToFree::delete call in try_freeing')
     _eq, ne_edges, _h = x.eq_tests(lambda a_, b_: a_[0] == 'call' and x.rep(a_[1]) in x.atoms and x.atoms[x.rep(a_[1])].on('MemToken.epoch')
-                                   and b_ == ('param', g.root_inst, 2))
+                                   and _param_proj(g, b_, 2))
     eq_seen = bool(_h)
     nexts = [n for n in x.ext_calls(r'Iterator::next$|::next$')
              if any(p.endswith('MemoryManagerInner.tokens') for a in g.call_args(n) for c in x.calls_in(a) for p in g.locpaths(g.call_args(c)[0]) if g.call_args(c))]
@@ -314,9 +322,7 @@ def _p13(ctx):
         for fl in ('BCast',):
             g = ctx.graph(d, fl)
             x = g.x
-            rel = list(x.inlined(r'^alloc::deallocate$|memory::ToFree::delete$|memory::MemoryManager::free$'))
-            for n in rel:
-                inst = g.nodes[n].call['inlined']
+            for (n, inst) in g.inlined_insts(r'^alloc::deallocate$|memory::ToFree::delete$|memory::MemoryManager::free$'):
                 for pi in (1, 2):
                     if pi > g.insts[inst].body['arg_count']:
                         continue
@@ -328,7 +334,7 @@ def _p13(ctx):
             for n in x.ext_calls(r'Vec(::<.*>)?::drain$|IntoIterator::into_iter$'):
                 for a in g.call_args(n)[:1]:
                     for s in g.deep_walk(a):
-                        if s[0] == 'fld' and x.inlined(r'memory::ToFree::delete$'):
+                        if s[0] == 'fld' and g.inlined_insts(r'memory::ToFree::delete$'):
                             released.setdefault(s[2], set()).add(self_adt)
     for (field, what) in OWNING:
         adt, fname = field.split('.')
